@@ -1017,4 +1017,52 @@ pub(crate) mod verif_pc {
         core::mem::forget(reqs);
         core::mem::forget(s);
     }
+
+    // ------------------------------------------------------------------ packets from unknown addresses (C08)
+
+    /// a socket that delivers exactly one message, from the given address, on the first receive
+    struct OneShotSocket {
+        msg: Option<(u8, crate::Message)>,
+    }
+    impl NonBlockingSocket<u8> for OneShotSocket {
+        fn send_to(&mut self, _msg: &crate::Message, _addr: &u8) {}
+        fn receive_all_messages(&mut self) -> Vec<(u8, crate::Message)> {
+            let mut v = Vec::with_capacity(1);
+            if let Some(m) = self.msg.take() {
+                v.push(m);
+            }
+            v
+        }
+    }
+
+    /// (NOT REGISTERED: exceeds 20 min of symbolic execution - poll_remote_clients walks both endpoint maps)
+    /// poll_remote_clients with a packet (any kind, any magic) from an address that is neither a
+    /// remote player nor a spectator: it is handed to no endpoint - the endpoint's receive timer,
+    /// state and queues, the session's statuses, frame counter and user events are unchanged.
+    #[kani::proof]
+    #[kani::unwind(6)]
+    #[kani::stub(crate::network::protocol::millis_since_epoch, stub_millis)]
+    #[kani::stub(alloc::fmt::format, stub_format)]
+    #[kani::stub(crate::network::compression::decode, crate::verif_common::stub_decode_err)]
+    #[kani::stub(crate::network::compression::encode, stub_encode)]
+    fn x_unknown_address_ignored() {
+        instant::set_now_ms(100_000);
+        let mut reg = PlayerRegistry::<CfgRL> { handles: HashMap::new(), remotes: HashMap::new(), spectators: HashMap::new() };
+        reg.handles.insert(0, PlayerType::Local);
+        reg.handles.insert(1, PlayerType::Remote(9));
+        reg.remotes.insert(9, vu::mk_ep::<CfgRL>(vec![1], 2, 1, 2, true));
+        let from: u8 = kani::any();
+        kani::assume(from != 9);
+        let m = vu::any_message();
+        let mut s = P2PSession::<CfgRL>::new(2, 2, Box::new(OneShotSocket { msg: Some((from, m)) }), reg, false, DesyncDetection::Off, 0, 60);
+        s.state = SessionState::Running;
+        s.poll_remote_clients();
+        let ep = s.player_reg.remotes.get(&9).unwrap();
+        assert!(vu::last_recv_ms(ep) == 100_000 && vu::sendq_len(ep) == 0 && vu::pending_len(ep) == 0);
+        assert!(!vu::is_disconnected_state(ep));
+        assert!(s.event_queue.is_empty() && s.current_frame() == 0);
+        assert!(!s.local_connect_status[1].disconnected && s.local_connect_status[1].last_frame == NULL_FRAME);
+        kani::cover!(from == 0, "address 0");
+        core::mem::forget(s);
+    }
 }
